@@ -283,19 +283,9 @@ Definition item_neg_arch (i : item) : bool :=
 Definition has_neg_arch (f : rfield) : bool := existsb item_neg_arch (f_items f).
 
 (* ---------------- the domain of the lossy-reader clause ----------------
-   no substitution variables; newlines only around "," and "|" (lead, after a separator, after a
-   relation); nothing between ":" and the architecture qualifier *)
-Definition no_lf (s : str) : bool := forallb (fun c => negb (c =? 10)%N) s.
-Definition term_inl (t : term) : bool := no_lf (t_ws t).
-Definition group_inl (g : group) : bool := no_lf (g_ws0 g) && forallb term_inl (g_terms g) && no_lf (g_ws1 g).
-Definition rel_lossy_dom (r : rel) : bool :=
-  opt_ok (fun q => no_lf (q_ws0 q) && is_nil (q_ws1 q)) (r_qual r)
-  && opt_ok (fun v => no_lf (v_ws0 v) && no_lf (v_ws1 v) && no_lf (v_ws2 v) && no_lf (v_ws3 v)) (r_ver r)
-  && opt_ok group_inl (r_archs r) && forallb group_inl (r_profs r).
-Definition item_lossy_dom (i : item) : bool :=
-  match i with
-  | IEntry r alts => rel_lossy_dom r && forallb (fun wr => rel_lossy_dom (snd wr)) alts
-  | ISubst _ _ _ => false
-  | IEmpty => true
-  end.
+   no substitution variables (the lossy reader has none).  Nothing else: since the fix of the lossy
+   reader for folded fields (proposed_fixes/C14-lossy-newlines.patch; before it a line break inside
+   a relation and a blank after the ":" of a qualifier were rejected) every whitespace slot may hold
+   any run of SP / TAB / LF. *)
+Definition item_lossy_dom (i : item) : bool := match i with ISubst _ _ _ => false | _ => true end.
 Definition lossy_dom (f : rfield) : bool := forallb item_lossy_dom (f_items f).
